@@ -24,7 +24,7 @@ VARIANTS = {
     "hash3prior": ({"PYTHONHASHSEED": "77"}, ["--prior", "5"]),
 }
 
-LIB = ["cms_str", "sketches_str", "poisson_queue", "fam_c19_mq", "fam_c19_topic", "cache_policies_str"]
+LIB = ["cms_str", "sketches_str", "poisson_queue", "fam_c19_mq", "fam_c19_topic", "cache_policies_str", "seeded_boundary_seeds"]
 CORE_FILES = [
     "tests/integration/consensus/test_consensus_raft.py",
     "tests/integration/consensus/test_consensus_paxos.py",
